@@ -1,0 +1,33 @@
+//go:build verif
+
+package rpc
+
+import (
+	"reflect"
+	"sort"
+)
+
+// VerifMethod describes one registered RPC callback (verification harness only).
+type VerifMethod struct {
+	Service  string         // namespace, e.g. "personal"
+	Method   string         // wire name without the namespace, e.g. "sendTransaction"
+	GoName   string         // Go method name
+	ArgTypes []reflect.Type // argument types (without receiver and context)
+}
+
+// VerifMethods lists every callback this server would dispatch to.
+func (s *Server) VerifMethods() []VerifMethod {
+	var out []VerifMethod
+	for name, svc := range s.services {
+		for wire, cb := range svc.callbacks {
+			out = append(out, VerifMethod{Service: name, Method: wire, GoName: cb.method.Name, ArgTypes: append([]reflect.Type{}, cb.argTypes...)})
+		}
+	}
+	sort.Slice(out, func(i, j int) bool {
+		if out[i].Service != out[j].Service {
+			return out[i].Service < out[j].Service
+		}
+		return out[i].Method < out[j].Method
+	})
+	return out
+}
